@@ -21,7 +21,7 @@
      re-issued before its merged EOSE; a child sends EOSE for [sub] once, in
      answer to a pending REQ) an EOSE inside the window is the child's own
      answer to the window's REQ. *)
-From Moc Require Import Base Match MatchProofs Merge MergeProofs MergeOracleProofs.
+From Moc Require Import Base Match MatchProofs Merge MergeProofs MergeOracleProofs MergeMulti MergeMultiProofs.
 Open Scope Z_scope.
 
 (** every history accepted by [wf_trace] is covered by the theorems below *)
@@ -195,6 +195,18 @@ Theorem C08_agreement_implies_oracle : forall n t,
   (2 <= n)%nat -> trace_ok n (List.map fst t) -> model_agrees (init n) t = true -> c08_oracle n t = true.
 Proof. intros n t Hn. apply agreement_implies_c08_oracle. lia. Qed.
 Print Assumptions C08_agreement_implies_oracle.
+
+(* ------------------------------------------------------------------ *)
+(** One handler value serves every connection; the REQ state is allocated per
+    ServeNostr call.  The model of a handler with [k] sessions is the product
+    of [k] session models, and C08 is required of every session on its own
+    ([c08_multi_oracle] judges what each session saw with [c08_oracle]): what
+    the product model reproduces is accepted session by session. *)
+Theorem C08_sessions_agreement_implies_oracle : forall n k t,
+  (2 <= n)%nat -> (forall p, In p t -> input_ok n (fst (snd p))) ->
+  multi_agrees (repeat (init n) k) t = true -> c08_multi_oracle n k t = true.
+Proof. intros n k t Hn. apply multi_agreement_implies_c08_oracle. lia. Qed.
+Print Assumptions C08_sessions_agreement_implies_oracle.
 
 (* ------------------------------------------------------------------ *)
 (** Non-vacuity: a concrete history with two children meeting every
